@@ -702,6 +702,45 @@ def check(model, rep):
         rep.ob('R18.9', nj, 'central difference', False, 'the numerical Jacobian is not the central difference of the handle: ' + msg, line=line)
     if n_q and not probs:
         rep.ob('R18.9', nj, 'central difference', True, '%d quotient(s)' % n_q)
+    # ---------------------------------------------------------------- R18.10
+    # The helpers hand out fresh arrays: callers scale, offset and rotate what they receive in place.  A memoising decorator makes every
+    # caller of the same arguments share ONE array - the second call returns whatever the first caller did to it.
+    rep.rule('R18.10', 'no geometric helper that returns an array (or a list / transform) is memoised: results are fresh objects on every call')
+    MEMO = ('lru_cache', 'cache', 'cached', 'memoize', 'memoized', 'memoise', 'cached_property')
+    n_fn = n_memo = 0
+    for fi in [f for f in model.funcs_in(FSR) + model.funcs_in(HELP) if f.outer is None]:
+        n_fn += 1
+        decs = []
+        for d_ in fi.node.decorator_list:
+            f_ = d_.func if isinstance(d_, ast.Call) else d_
+            nm = f_.attr if isinstance(f_, ast.Attribute) else (f_.id if isinstance(f_, ast.Name) else '')
+            if nm in MEMO:
+                decs.append(nm)
+        if not decs:
+            continue
+        n_memo += 1
+        rets = [r_.value for r_ in walk_own(fi.node) if isinstance(r_, ast.Return) and r_.value is not None]
+        il_ = Inliner(fi)
+
+        def immutable(e_):
+            e_ = il_.expand(e_)
+            if isinstance(e_, ast.Constant):
+                return True
+            if isinstance(e_, ast.Tuple):
+                return all(immutable(x_) for x_ in e_.elts)
+            if isinstance(e_, ast.Call) and norm_text(e_.func) in ('float', 'int', 'bool', 'str', 'tuple', 'len', 'abs', 'round', 'math.sqrt', 'math.acos',
+                                                                     'math.atan2', 'math.sin', 'math.cos'):
+                return norm_text(e_.func) != 'tuple' or True
+            return False
+        mut = [r_ for r_ in rets if not immutable(r_)]
+        rep.ob('R18.10', fi, '%s is memoised (@%s): returns immutable values only' % (fi.name, decs[0]), not mut,
+               '%s is wrapped in @%s and returns %s: every call with the same arguments hands out the SAME object, so a caller that scales / offsets / rotates the '
+               'result in place changes what the next caller receives (e.g. sphere samples that are no longer unit vectors)'
+               % (fi.name, decs[0], norm_text(mut[0])[:50] if mut else ''), line=fi.node.lineno)
+    rep.count('R18.10 helper functions scanned for memoising decorators', n_fn)
+    rep.count('R18.10 memoised helpers', n_memo)
+    rep.floor('R18.10', 'helper functions scanned', n_fn, 30)
+    rep.ob('R18.10', model.module(FSR).relpath, 'memoising decorators on array-valued helpers', True, '%d helpers scanned, %d memoised' % (n_fn, n_memo), qualname='<module>', line=1)
     # ---------------------------------------------------------------- R18.8
     rep.rule('R18.8', 'a value accumulated in floating point inside a loop reaches sqrt / arccos / arcsin / log only through a clamp '
                       '(np.clip, min/max, abs): the accumulated sum may overshoot the mathematical end value by an ulp')
